@@ -656,8 +656,16 @@ def solve_anchors(model, r):
             for k, v in zip(n.value.keys, n.value.values):
                 if isinstance(k, ast.Constant) and isinstance(k.value, str) and isinstance(v, ast.Name):
                     chan.setdefault(k.value, v.id)
+    # a column that exists only under a switch: header -> the test of the `if` whose body stores it
+    chan_cond = {}
+    for n in ast.walk(phase_loop):
+        if isinstance(n, ast.If):
+            for b in n.body:
+                if isinstance(b, ast.Assign) and isinstance(b.targets[0], ast.Subscript) and isinstance(b.targets[0].slice, ast.Constant) \
+                        and isinstance(b.targets[0].slice.value, str) and isinstance(b.value, ast.Name) and chan.get(b.targets[0].slice.value) == b.value.id:
+                    chan_cond[b.targets[0].slice.value] = ast.unparse(n.test)
     return {"fn": fn, "row": row, "phase_loop": phase_loop, "V": vis[0], "I": vis[1], "ITERS": vis[2], "STATE": vis[3],
-            "solver_call": solver_call, "chan": chan}
+            "solver_call": solver_call, "chan": chan, "chan_cond": chan_cond}
 
 
 _ROW_CACHE = {}
